@@ -75,6 +75,24 @@ fn usage() -> ! {
     std::process::exit(2)
 }
 
+/// Remove this process's scratch directory, and those of zsim processes that no longer exist.
+fn cleanup_scratch() {
+    let root = wallet::scratch_root();
+    let _ = std::fs::remove_dir_all(&root);
+    if let Some(parent) = root.parent() {
+        if let Ok(rd) = std::fs::read_dir(parent) {
+            for e in rd.flatten() {
+                let name = e.file_name().to_string_lossy().to_string();
+                if let Some(pid) = name.strip_prefix("zsim-").and_then(|p| p.parse::<u32>().ok()) {
+                    if !std::path::Path::new(&format!("/proc/{pid}")).exists() {
+                        let _ = std::fs::remove_dir_all(e.path());
+                    }
+                }
+            }
+        }
+    }
+}
+
 fn main() {
     runner::install_panic_hook();
     let args: Vec<String> = std::env::args().skip(1).collect();
@@ -141,7 +159,9 @@ fn main() {
                 eprintln!("harness error: replay file names unknown property {prop:?}");
                 std::process::exit(2);
             }
-            std::process::exit(runner::replay_file(&scs, &path, quiet));
+            let code = runner::replay_file(&scs, &path, quiet);
+            cleanup_scratch();
+            std::process::exit(code);
         }
         "selftest" => {
             std::process::exit(selftest(n_self));
@@ -185,7 +205,9 @@ fn main() {
                 std::process::exit(2);
             }
             let opts = runner::BatchOpts { tier, seed, workers, runs_override: runs, budget_override: budget, write_evidence: evidence, minimise: true };
-            std::process::exit(runner::run_batch(&scs, &opts));
+            let code = runner::run_batch(&scs, &opts);
+            cleanup_scratch();
+            std::process::exit(code);
         }
     }
 }
